@@ -26,16 +26,64 @@ package token
 // @   modifies nothing
 // @   requires[C03,C20] count >= 0
 
+// fmt.Fprintf into a *bytes.Buffer appends (C15 needs what the three escape formats of quote.go
+// produce: backslash, a letter and the value in exactly n lower-case hex digits when it fits n digits).
+// @ spec hexVal2(buf, p) = 16 * hexVal(buf[p]) + hexVal(buf[p + 1])
+// @ spec hexVal4(buf, p) = 256 * hexVal2(buf, p) + hexVal2(buf, p + 2)
+// @ spec hexVal8(buf, p) = 65536 * hexVal4(buf, p) + hexVal4(buf, p + 4)
+// @ spec hexDigits2(buf, p) = isHexDigit(buf[p]) && isHexDigit(buf[p + 1])
+// @ spec hexDigits4(buf, p) = hexDigits2(buf, p) && hexDigits2(buf, p + 2)
+// @ spec hexDigits8(buf, p) = hexDigits4(buf, p) && hexDigits4(buf, p + 4)
 // @ func fmt.Fprintf
 // @   trusted
-// @   modifies nothing
+// @   let b = as(w, "*bytes.Buffer")
+// @   requires typeIs(w, "*bytes.Buffer") && b != nil
+// @   ensures b.off == old(b.off) && len(b.buf) >= old(len(b.buf)) && (forall k: 0 <= k && k < old(len(b.buf)) ==> b.buf[k] == old(b.buf)[k])
+// @   ensures format == "\\x%02x" && len(a) == 1 && 0 <= boxedInt(a[0]) && boxedInt(a[0]) < 256 ==> len(b.buf) == old(len(b.buf)) + 4 && b.buf[old(len(b.buf))] == 92 && b.buf[old(len(b.buf)) + 1] == 'x' && hexDigits2(b.buf, old(len(b.buf)) + 2) && hexVal2(b.buf, old(len(b.buf)) + 2) == boxedInt(a[0])
+// @   ensures format == "\\u%04x" && len(a) == 1 && 0 <= boxedInt(a[0]) && boxedInt(a[0]) < 65536 ==> len(b.buf) == old(len(b.buf)) + 6 && b.buf[old(len(b.buf))] == 92 && b.buf[old(len(b.buf)) + 1] == 'u' && hexDigits4(b.buf, old(len(b.buf)) + 2) && hexVal4(b.buf, old(len(b.buf)) + 2) == boxedInt(a[0])
+// @   ensures format == "\\U%08x" && len(a) == 1 && 0 <= boxedInt(a[0]) && boxedInt(a[0]) < 4294967296 ==> len(b.buf) == old(len(b.buf)) + 10 && b.buf[old(len(b.buf))] == 92 && b.buf[old(len(b.buf)) + 1] == 'U' && hexDigits8(b.buf, old(len(b.buf)) + 2) && hexVal8(b.buf, old(len(b.buf)) + 2) == boxedInt(a[0])
+// @   modifies b.buf, b.lastRead
 
 // @ func fmt.Fprintln
 // @   trusted
 // @   modifies nothing
 
+// bytes.Buffer, as far as quote.go uses it (append-only, never read: off stays 0). The contracts speak
+// about the buffer's own fields.
 // @ func bytes.(*Buffer).String
 // @   trusted
+// @   requires b != nil
+// @   ensures len(result) == len(b.buf) - b.off && (forall k: 0 <= k && k < len(result) ==> result[k] == b.buf[b.off + k])
+// @   modifies nothing
+
+// @ func bytes.(*Buffer).WriteByte
+// @   trusted
+// @   requires b != nil
+// @   ensures b.off == old(b.off) && len(b.buf) == old(len(b.buf)) + 1 && b.buf[old(len(b.buf))] == c && (forall k: 0 <= k && k < old(len(b.buf)) ==> b.buf[k] == old(b.buf)[k])
+// @   modifies b.buf, b.lastRead
+
+// @ func bytes.(*Buffer).WriteString
+// @   trusted
+// @   requires b != nil
+// @   ensures b.off == old(b.off) && len(b.buf) == old(len(b.buf)) + len(s) && (forall k: 0 <= k && k < old(len(b.buf)) ==> b.buf[k] == old(b.buf)[k])
+// @   ensures forall k: old(len(b.buf)) <= k && k < len(b.buf) ==> b.buf[k] == s[k - old(len(b.buf))]
+// @   modifies b.buf, b.lastRead
+
+// WriteRune writes the UTF-8 encoding of r (U+FFFD for a value that is not a Unicode scalar).
+// @ spec scalar(r) = 0 <= r && r <= 1114111 && !(55296 <= r && r <= 57343)
+// @ func bytes.(*Buffer).WriteRune
+// @   trusted
+// @   let rr = ite(scalar(r), r, 65533)
+// @   requires b != nil
+// @   ensures b.off == old(b.off) && len(b.buf) == old(len(b.buf)) + utf8len(rr) && (forall k: 0 <= k && k < old(len(b.buf)) ==> b.buf[k] == old(b.buf)[k])
+// @   ensures forall k: old(len(b.buf)) <= k && k < len(b.buf) ==> b.buf[k] == utf8byte(rr, k - old(len(b.buf)))
+// @   ensures b.buf[old(len(b.buf))] == utf8byte(rr, 0)
+// @   modifies b.buf, b.lastRead
+
+// @ func unicode.IsPrint
+// @   trusted
+// @   ensures 0 <= r && r < 128 ==> (result <==> isPrintASCII(r))
+// @   ensures result ==> scalar(r)
 // @   modifies nothing
 
 // ---------------------------------------------------------------------------------------------
@@ -107,3 +155,81 @@ package token
 // @   loop 0 invariant reveal(LinesInv(f.lines, f.Buffer))
 // @   loop 0 invariant LinesInv(f.lines, f.Buffer) && line <= l && l <= endLine + 1 && 0 <= line && endLine < len(f.lines) - 1
 // @   loop 0 decreases endLine + 1 - l
+
+// ---------------------------------------------------------------------------------------------
+// Quoting (C15). One element of the value (a byte of a bytes value; a rune of a string or identifier,
+// i.e. the bytes s[i:i+w]) is written as one unit of the literal syntax that the lexer's escape table
+// (simpleEsc / simpleEscVal / hexVal in the lexer contracts, C14) decodes to exactly those bytes:
+//   plain:  the bytes themselves, where the first is not a backslash, the closing quote or a newline;
+//   simple: backslash + a character of the one-character escape table whose value is the byte;
+//   hex:    \xHH with value the byte;
+//   uni:    \uHHHH or \UHHHHHHHH (strings and identifiers only) with value a Unicode scalar whose
+//           UTF-8 encoding is s[i:i+w].
+// @ spec isQuote(q) = q == 34 || q == 39 || q == 96
+// @ spec encPlain(out, o, n, s, i, w, quote) = n == w && w >= 1 && (forall k: 0 <= k && k < w ==> out[o + k] == s[i + k]) && s[i] != 92 && s[i] != quote && s[i] != 10
+// @ spec encSimple(out, o, n, s, i, w) = w == 1 && n == 2 && out[o] == 92 && simpleEsc(out[o + 1]) && simpleEscVal(out[o + 1]) == s[i]
+// @ spec encHex(out, o, n, s, i, w) = w == 1 && n == 4 && out[o] == 92 && out[o + 1] == 'x' && hexDigits2(out, o + 2) && hexVal2(out, o + 2) == s[i]
+// @ spec encUni(out, o, n, s, i, w, r) = scalar(r) && utf8len(r) == w && (forall k: 0 <= k && k < w ==> s[i + k] == utf8byte(r, k)) && out[o] == 92 && ((n == 6 && out[o + 1] == 'u' && hexDigits4(out, o + 2) && hexVal4(out, o + 2) == r) || (n == 10 && out[o + 1] == 'U' && hexDigits8(out, o + 2) && hexVal8(out, o + 2) == r))
+// @ spec encOK(out, o, n, s, i, w, quote, isString, r) = encPlain(out, o, n, s, i, w, quote) || encSimple(out, o, n, s, i, w) || encHex(out, o, n, s, i, w) || (isString && encUni(out, o, n, s, i, w, r))
+
+// @ func token.suitableQuote
+// @   props C15
+// @   ensures result == 34 || result == 39
+// @   modifies nothing
+// @   loop 0 invariant 0 - 1 <= rangeindex && rangeindex < len(b)
+// @   loop 0 decreases len(b) - rangeindex
+
+// @ func token.quoteSingleEscape
+// @   props C15
+// @   requires isQuote(quote)
+// @   ensures len(result) == 0 || len(result) == 2
+// @   ensures[C15] table: len(result) == 2 ==> result[0] == 92 && simpleEsc(result[1]) && simpleEscVal(result[1]) == r
+// @   ensures[C15] must: r == quote || r == 92 || (isString && (r == 10 || r == 13 || r == 9)) ==> len(result) == 2
+// @   ensures[C15] only: len(result) == 2 ==> r == quote || r == 92 || (isString && (r == 10 || r == 13 || r == 9))
+// @   modifies nothing
+
+// @ func token.quoteSQLStringContent
+// @   props C15
+// @   requires buf != nil && buf.off == 0 && isQuote(quote)
+// @   ensures buf.off == 0 && len(buf.buf) >= old(len(buf.buf)) && (forall k: 0 <= k && k < old(len(buf.buf)) ==> buf.buf[k] == old(buf.buf)[k])
+// @   modifies buf.buf, buf.lastRead
+// @   loop 0 invariant 0 <= rangepos && rangepos <= len(s) && buf.off == 0 && len(buf.buf) >= old(len(buf.buf)) && (forall k: 0 <= k && k < old(len(buf.buf)) ==> buf.buf[k] == old(buf.buf)[k])
+// @   loop 0 step[C15] elem: rangepos > prev(rangepos) && encOK(buf.buf, len(prev(buf.buf)), len(buf.buf) - len(prev(buf.buf)), s, prev(rangepos), rangepos - prev(rangepos), quote, true, r)
+// @   loop 0 step[C15] keep: forall k: 0 <= k && k < len(prev(buf.buf)) ==> buf.buf[k] == prev(buf.buf)[k]
+// @   loop 0 decreases len(s) - rangepos
+
+// @ func token.QuoteSQLString
+// @   props C15
+// @   ensures[C15] quoted: len(result) >= 2 && (result[0] == 34 || result[0] == 39) && result[len(result) - 1] == result[0]
+// @   modifies nothing
+
+// @ func token.QuoteSQLBytes
+// @   props C15
+// @   ensures[C15] quoted: len(result) >= 3 && result[0] == 'b' && (result[1] == 34 || result[1] == 39) && result[len(result) - 1] == result[1]
+// @   modifies nothing
+// @   loop 0 invariant 0 - 1 <= rangeindex && rangeindex < len(bs) && buf.off == 0 && len(buf.buf) >= 2 && buf.buf[0] == 'b' && buf.buf[1] == quote && isQuote(quote) && quote != 96
+// @   loop 0 step[C15] elem: encOK(buf.buf, len(prev(buf.buf)), len(buf.buf) - len(prev(buf.buf)), bs, rangeindex, 1, quote, false, 0)
+// @   loop 0 step[C15] keep: forall k: 0 <= k && k < len(prev(buf.buf)) ==> buf.buf[k] == prev(buf.buf)[k]
+// @   loop 0 decreases len(bs) - rangeindex
+
+// An identifier is returned as it is exactly when it is identifier-shaped and not a reserved keyword.
+// @ spec identShaped(s) = len(s) > 0 && isIdentStart(s[0]) && (forall k: 0 <= k && k < len(s) ==> isIdentPart(s[k]))
+// @ func token.IsKeyword
+// @   props C15
+// @   ensures[C15] fold: result <==> isKeywordFold(s)
+// @   modifies nothing
+
+// @ func token.needQuoteSQLIdent
+// @   props C15
+// @   requires len(s) > 0
+// @   ensures[C15] exact: !result <==> (identShaped(s) && !isKeywordFold(s))
+// @   modifies nothing
+// @   loop 0 invariant 0 <= i && i <= len(s) && (forall k: 0 <= k && k < i ==> isIdentPart(s[k]))
+// @   loop 0 decreases len(s) - i
+
+// @ func token.QuoteSQLIdent
+// @   props C15
+// @   requires[C15] nonempty: len(s) > 0
+// @   ensures[C15] bare: identShaped(s) && !isKeywordFold(s) ==> result == s
+// @   ensures[C15] quoted: !(identShaped(s) && !isKeywordFold(s)) ==> len(result) >= 2 && result[0] == 96 && result[len(result) - 1] == 96
+// @   modifies nothing
